@@ -51,6 +51,14 @@ package main
 // serially and as a concurrent burst; every call must return within the watchdog with its own
 // in-process result or error.
 //
+// The `pattern` stream (every run): a step whose input has a pattern-constrained string, and
+// rejected values that are long and written in multi-byte scripts (Japanese, Russian, Korean,
+// emoji; longer than 48 and 64 bytes; with an ASCII prefix of 0-3 bytes, so that a byte-wise cut
+// falls inside a character), serial and concurrent. Here the oracle also looks at the error text:
+// a rejected input must come back as that step's error CARRYING ITS TEXT, i.e. the text of the
+// in-process CallStep error must be contained in the Execute's error (the text travels inside an
+// ATP error message; a text a validating CBOR decoder refuses never arrives).
+//
 // A finding carries the whole session (plugin, calls with inputs, rounds, delays, transport, seed) as
 // its detail; `harness atpsession -replay <finding or session json>` re-runs that session.
 //
@@ -71,6 +79,7 @@ import (
 	"io"
 	"math/rand"
 	"os"
+	"regexp"
 	"runtime"
 	"sort"
 	"strings"
@@ -374,6 +383,8 @@ type atpxSpec struct {
 	Bulk      bool        `json:"bulk_plugin,omitempty"` // the fixed bulk plugin instead of Plugin
 	// how the server's returned errors relate to the failing steps: "" exact, "atleast", "skip"
 	CountMode string `json:"count_mode,omitempty"`
+	// the Execute's error must contain the text of the in-process error
+	CheckText bool `json:"check_error_text,omitempty"`
 	// every Write of the client-to-server direction is stalled this long
 	C2SStallUs int `json:"c2s_stall_us,omitempty"`
 	Reuses    int         `json:"run_id_reuses,omitempty"`
@@ -453,7 +464,17 @@ func atpxBulkPlugin(sleep bool) *schema.CallableSchema {
 		size, _ := m["size"].(int64)
 		return "success", map[string]any{"tag": uid, "blob": atpxBlob(uid, int(size))}
 	}
+	patIn := schema.NewScopeSchema(schema.NewObjectSchema("PatInput", map[string]*schema.PropertySchema{
+		"uid":  atpsProp(schema.NewStringSchema(nil, nil, nil), false),
+		"word": atpsProp(schema.NewStringSchema(nil, nil, regexp.MustCompile("^[a-z]+$")), true),
+	}))
+	patHandler := func(_ context.Context, input any) (string, any) {
+		m, _ := input.(map[string]any)
+		word, _ := m["word"].(string)
+		return "success", map[string]any{"tag": word, "blob": atpxBlob(word, 16)}
+	}
 	return schema.NewCallableSchema(
+		schema.NewCallableStep[any]("pat", patIn, outputs(), nil, patHandler),
 		schema.NewCallableStep[any]("opt", optIn, outputs(), nil, optHandler),
 		schema.NewCallableStep[any]("bulk", in(), outputs(), nil, handler),
 		schema.NewCallableStep[any]("slow", in(), outputs(), nil, handler),
@@ -553,6 +574,40 @@ func atpxRawInputSpec(idx int, rnd *rand.Rand, seed int64) *atpxSpec {
 			step = "bulk" // nil is rejected here before and after
 		}
 		sp.Calls = append(sp.Calls, atpxCall{RunID: fmt.Sprintf("n%d-%d", idx, c), Step: step, V: v})
+	}
+	return sp
+}
+
+var atpxScripts = []string{
+	"これはパターンに一致しない日本語の長い文章です。",
+	"Это предложение на русском языке не соответствует образцу.",
+	"이 문장은 패턴과 일치하지 않는 한국어 문장입니다",
+	"🚀🌍✨🎉🔥💡🧪📦",
+	"ßüöäéèêàçñ",
+}
+
+// atpxPatternSpec: rejected pattern values in multi-byte scripts, long enough to be abbreviated.
+func atpxPatternSpec(idx int, rnd *rand.Rand, seed int64) *atpxSpec {
+	sp := &atpxSpec{Idx: idx, Stream: "pattern", Bulk: true, Pattern: []string{"serial", "overlap", "waves"}[rnd.Intn(3)],
+		Transport: []string{"pipe", "chunked", "split"}[rnd.Intn(3)], Seed: seed, CheckText: true}
+	k := 3 + rnd.Intn(6)
+	for c := 0; c < k; c++ {
+		run := fmt.Sprintf("p%d-%d", idx, c)
+		var word string
+		switch kind := rnd.Intn(10); {
+		case kind < 2:
+			word = []string{"abc", "pattern", "z"}[rnd.Intn(3)] // accepted
+		case kind < 3:
+			word = "UPPER CASE is rejected, in ASCII, and is longer than sixty-four bytes in total"
+		default:
+			sc := atpxScripts[rnd.Intn(len(atpxScripts))]
+			word = "abc"[:rnd.Intn(4)]
+			for len(word) < 50+rnd.Intn(60) {
+				word += sc
+			}
+		}
+		sp.Calls = append(sp.Calls, atpxCall{RunID: run, Step: "pat",
+			V: hx.StrAny([2]*hx.Val{hx.Str("uid"), hx.Str(run)}, [2]*hx.Val{hx.Str("word"), hx.Str(word)})})
 	}
 	return sp
 }
@@ -715,6 +770,9 @@ func (g *atpxGenT) input(st atpxStep, uid string) *hx.Val {
 // ---------------------------------------------------------------------------------------------
 // expectations
 
+// atpxLastErrText: text of the in-process error per (run ID, step), for the streams that check it.
+var atpxLastErrText sync.Map
+
 type atpxExpect struct {
 	Err   bool
 	OutID string
@@ -733,6 +791,7 @@ func atpxReference(ref *schema.CallableSchema, c atpxCall) (e atpxExpect, unsent
 		id, data, err := ref.CallStep(context.Background(), c.RunID, c.Step, norm)
 		if err != nil {
 			e = atpxExpect{Err: true}
+			atpxLastErrText.Store(c.RunID+"\x00"+c.Step, err.Error())
 			return hx.Result{R: "ok"}
 		}
 		nd, err := cborNorm(data)
@@ -1030,6 +1089,14 @@ func atpxRunSession(sp *atpxSpec, timeout time.Duration) (out atpxSessionResult)
 		if unsent[i] {
 			out.unsent++
 		}
+		if sp.CheckText && got == want && want.Err && !unsent[i] && r.Error != nil {
+			if t, ok := atpxLastErrText.Load(calls[i].RunID + "\x00" + calls[i].Step); ok {
+				if want := t.(string); !strings.Contains(r.Error.Error(), want) {
+					find("Execute %d (run %s, step %s) returned an error that does not carry the step's own error text: got %q, in-process CallStep says %q",
+						i, calls[i].RunID, calls[i].Step, atpxShort(r.Error.Error()), atpxShort(want))
+				}
+			}
+		}
 		if got != want && calls[i].MayBeRefused && got.Err {
 			out.refused++
 			continue // refused by the client as a duplicate of a run in flight
@@ -1277,6 +1344,13 @@ func atpxCmd(a Args) {
 	for i := 0; i < nBlank; i++ {
 		jobs = append(jobs, atpxBlankSpec(base+nRaw+i, brnd, a.Seed*7000033+int64(i)))
 	}
+	nPat := 24
+	if thorough {
+		nPat = 300
+	}
+	for i := 0; i < nPat; i++ {
+		jobs = append(jobs, atpxPatternSpec(base+nRaw+nBlank+i, brnd, a.Seed*8000051+int64(i)))
+	}
 	results := make([]atpxSessionResult, len(jobs))
 	sem := make(chan struct{}, 16)
 	var wg sync.WaitGroup
@@ -1296,7 +1370,7 @@ func atpxCmd(a Args) {
 			if j.Stream == "bulk" {
 				timeout = 5 * time.Second
 			}
-			if j.Stream == "dup" || j.Stream == "signal" || j.Stream == "blank" || j.Stream == "rawinput" {
+			if j.Stream == "dup" || j.Stream == "signal" || j.Stream == "blank" || j.Stream == "rawinput" || j.Stream == "pattern" {
 				timeout = 4 * time.Second
 			}
 			results[ji] = atpxRunSession(j, timeout)
@@ -1322,7 +1396,7 @@ func atpxCmd(a Args) {
 		if j.Stream == "bulk" {
 			s.stats["bulk:executes"] += r.calls
 			s.stats["bulk:rounds"] += len(j.Rounds)
-		} else if j.Stream == "rawinput" || j.Stream == "blank" {
+		} else if j.Stream == "rawinput" || j.Stream == "blank" || j.Stream == "pattern" {
 			s.stats[j.Stream+":executes"] += r.calls
 		} else if j.Stream == "dup" {
 			s.stats["dup:executes"] += r.calls
